@@ -107,19 +107,6 @@ trait Mer: Sized {
         requires self.minv(), pos < self.mview().len(),
         ensures r == self.mview()[pos as int], r < 4;
 
-    fn set_mut(&mut self, pos: usize, val: u8)
-        requires old(self).minv(), pos < old(self).mview().len(), val < 4,
-        ensures final(self).minv(), final(self).mview() == old(self).mview().update(pos as int, val);
-
-    fn set_slice_mut(&mut self, pos: usize, nbases: usize, value: u64)
-        requires old(self).minv(), 1 <= nbases <= 32, pos + nbases <= old(self).mview().len(),
-        ensures final(self).minv(), final(self).mview().len() == old(self).mview().len(),
-            forall|j: int| 0 <= j < old(self).mview().len() ==> #[trigger] final(self).mview()[j]
-                == (if pos <= j < pos + nbases { lane(value, j - pos) } else { old(self).mview()[j] });
-
-    fn rc(&self) -> (r: Self)
-        requires self.minv(),
-        ensures r.minv(), r.mview() == rc_seq(self.mview());
 }
 
 /// the sequence after shifting base v in from the given side
@@ -146,6 +133,23 @@ trait Kmer: Mer + Copy + std::hash::Hash {
 
     fn k() -> (r: usize)
         ensures r == Self::kk(), 2 <= r <= 64;
+
+    // (in the real crate the next three are declared in `Mer`; they are part of the k-mer seam here because
+    //  the read-only containers - DnaStringSlice, DnaSlice - implement them as `unimplemented!()`)
+    fn set_mut(&mut self, pos: usize, val: u8)
+        requires old(self).minv(), pos < old(self).mview().len(), val < 4,
+        ensures final(self).minv(), final(self).mview() == old(self).mview().update(pos as int, val);
+
+    fn set_slice_mut(&mut self, pos: usize, nbases: usize, value: u64)
+        requires old(self).minv(), 1 <= nbases <= 32, pos + nbases <= old(self).mview().len(),
+        ensures final(self).minv(), final(self).mview().len() == old(self).mview().len(),
+            forall|j: int| 0 <= j < old(self).mview().len() ==> #[trigger] final(self).mview()[j]
+                == (if pos <= j < pos + nbases { lane(value, j - pos) } else { old(self).mview()[j] });
+
+    fn rc(&self) -> (r: Self)
+        requires self.minv(),
+        ensures r.minv(), r.mview() == rc_seq(self.mview());
+
 
     fn empty() -> (r: Self)
         ensures r.minv(), r.mview() == Seq::new(Self::kk(), |i: int| 0u8);
